@@ -188,6 +188,10 @@ pub mod model_collections {
             &mut self.map.node_mut(n).val
         }
     }
+    impl<K: Eq + Hash + Borrow<Q>, Q: ?Sized + Eq + Hash, V, S: BuildHasher> std::ops::Index<&Q> for HashMap<K, V, S> {
+        type Output = V;
+        fn index(&self, q: &Q) -> &V { self.get(q).expect("no entry found for key") }
+    }
     impl<'a, K, V, S> IntoIterator for &'a HashMap<K, V, S> {
         type Item = (&'a K, &'a V);
         type IntoIter = Iter<'a, K, V, S>;
